@@ -14,6 +14,7 @@ import Driver.C03
 import Driver.C18
 import Driver.C20
 import Driver.C19
+import Driver.C16
 open Kv
 
 structure DState where
@@ -22,6 +23,7 @@ structure DState where
   c08 : Drv.C08.FullSt := {}
   c17 : Drv.C17.MonSt := {}
   c03 : Drv.C03.FullSt := {}
+  c16 : Drv.C16.FullSt := {}
   deriving Inhabited
 
 /-- full driver: regenerated model + monitor -/
@@ -43,6 +45,7 @@ def dispatch (st : DState) (prop : String) (l : Line) : DState × String :=
   | "C03" => let (s, r) := Drv.C03.step st.c03 l; ({ st with c03 := s }, r)
   | "C18" => (st, Drv.C18.step l)
   | "C19" => (st, Drv.C19.step l)
+  | "C16" => let (s, r) := Drv.C16.step st.c16 l; ({ st with c16 := s }, r)
   | _ => (st, "bad-op")
 
 def main : IO Unit := driverMain dispatch {}
